@@ -31,6 +31,14 @@ def run(chk):
     chk.require(ma is not None, "arraylist.c not in the build")
     c07.r_expand(chk, prog, ma)
     c07.r_functions(chk, prog, ma)
+    # the same for the hash table (a failed resize has not written the old table) and the print buffer (a refused or failed
+    # extension has written no field), shared with C06 / C19
+    from . import c06, c19
+    ml, mp = prog.module("linkhash.c"), prog.module("printbuf.c")
+    chk.require(ml is not None and mp is not None, "linkhash.c / printbuf.c not in the build")
+    c06.r3_resize(chk, prog, ml)
+    c19.r_extend(chk, prog, mp)
+    c19.r_writers(chk, prog, mp)
     chk.undecided_clauses += [
         "that the k-th dynamic allocation of a given workload is handled (fault enumeration is a dynamic technique)",
         "absence of crashes inside libc",
